@@ -8,7 +8,7 @@ import numpy as np
 from harness import common as C
 from harness import fd
 
-IMPORTS = ("From FDAV Require Import Base.Num Base.Vec Base.Cmp Model.Basis Model.Pspline Model.LocalPoly Gen.Kernels Tie.C06.")
+IMPORTS = ("From FDAV Require Import Base.Num Base.Vec Base.Cmp Model.Basis Model.Pspline Model.LocalPoly Tie.C06.")
 RULE = ("1-D and 2-D scattered designs (n 8..40 quick / 8..200 thorough, unsorted, with ties), kernels gaussian / epanechnikov / tricube / "
         "bisquare, degree 0..3, bandwidth from a few spacings to the whole range, query points inside the design range, domains [0,1], "
         "day-of-year 1..365, [100,101], [-1,1] and shifted/scaled copies: for every query point the implementation's estimate is checked, "
@@ -119,16 +119,24 @@ def run(rep, props, replay=None):
     us = np.concatenate([[0.0, 1.0, -1.0, 0.5, -0.5, 1.0 + 2.0 ** -20, -(1.0 - 2.0 ** -20), 1.5, -3.0],
                          np.round(rng.uniform(-1.25, 1.25, size=12 if quick else 60) * 1024) / 1024])
     ktodo = []
+    runk = C.CoqRun("C06", IMPORTS.replace("Tie.C06.", "Gen.Kernels Tie.C06."), shard=1)
     for name in ("epanechnikov", "tricube", "bisquare"):
         vals = np.asarray(lpmod._kernel(name)(us.copy()), float)
-        t = runq.add("forallb (fun p => qclose " + C.qlit(1e-15) + f" (gen_kernel_{name} opsQ (fst p)) (snd p)) "
+        t = runk.add("forallb (fun p => qclose " + C.qlit(1e-15) + f" (gen_kernel_{name} opsQ (fst p)) (snd p)) "
                      + "[" + "; ".join(f"({C.qlit(u)}, {C.qlit(v)})" for u, v in zip(us, vals)) + "]")
         ktodo.append((t, name, vals))
     res = runq.run()
+    try:
+        resk = runk.run()
+    except RuntimeError as e:
+        # the generated file does not load: the translator rejected the current source (fail closed).  The proof gate
+        # reports the broken obligations; the hand-written model above still supplies failing inputs if the behaviour changed.
+        rep.notes.append(("translated kernels could not be evaluated (Gen/Kernels.v does not load): " + str(e))[:300])
+        resk, ktodo = {}, []
     for t, name, vals in ktodo:
         rep.case(("translated-kernel", name, us.tobytes()), kind=f"translated-kernel/{name}",
                  sample={"kernel": name, "n_points": int(len(us))})
-        if not res[t]:
+        if not resk[t]:
             rep.disagreements_checked += 1
             rep.violation(f"translator check: the Gallina translation of the {name} kernel evaluated in Q differs from the running "
                           f"code on the same arguments", {"kernel": name, "u": C.hexf(us), "values": C.hexf(vals)})
@@ -256,7 +264,7 @@ def integer_design(rep, rng):
 
 def kernel_monitor(rep):
     from FDApy.preprocessing.smoothing import local_polynomial as lp
-    t = np.array([0.0, 0.25, 0.5, 0.999, 1.0, 1.0001, 2.5])
+    t = np.array([0.0, 0.25, 0.5, 0.999, 1.0, 1.0001, 2.5, 3.25, 4.5, 7.0])
     bad = []
     for name, f in (("epanechnikov", lp._epanechnikov), ("tricube", lp._tri_cube), ("bisquare", lp._bi_square),
                     ("gaussian", lp._gaussian)):
